@@ -379,7 +379,18 @@ def _run(case, hooks=None):
                         sim.inject(make_report(drv, arg2), at=t0 + t2)
                         handled.add(ej)
                 sim.loop.advance(arg["d"])
-                if sim.gw.pending and sim.gw.pending[0][0] <= sim.loop.time():
+                if drv in HID and hasattr(sim.loop, "step"):
+                    # everything that became readable sits in the device node now: the loop's reader callback takes ONE
+                    # report per iteration and is called again in the next iteration while data remains (what tasks and
+                    # callbacks were woken by the previous report run in between, as on CPython's loop)
+                    first = True
+                    while sim.gw.pending and sim.gw.pending[0][0] <= sim.loop.time():
+                        if not first:
+                            sim.loop.step()
+                        if not sim.deliver():
+                            break
+                        first = False
+                elif sim.gw.pending and sim.gw.pending[0][0] <= sim.loop.time():
                     sim.deliver()
             elif what == "app_connect":
                 # the application asks the driver to connect again (e.g. after 'failed' was reported)
